@@ -161,6 +161,27 @@ func runR35(c *Ctx) {
 				if cst, ok := t.Y.(*ssa.Const); ok && cst.IsNil() && isErrorType(t.X.Type()) {
 					return t.Op == token.EQL, true
 				}
+				// a comparison of integers that fold on this path (the kind of matcher picked by a helper)
+				if isIntegerType(t.X.Type()) {
+					x, ok1 := pe.intOf(t.X, 0)
+					y, ok2 := pe.intOf(t.Y, 0)
+					if ok1 && ok2 {
+						switch t.Op {
+						case token.EQL:
+							return x == y, true
+						case token.NEQ:
+							return x != y, true
+						case token.LSS:
+							return x < y, true
+						case token.LEQ:
+							return x <= y, true
+						case token.GTR:
+							return x > y, true
+						case token.GEQ:
+							return x >= y, true
+						}
+					}
+				}
 			}
 			return false, false
 		}
@@ -170,8 +191,26 @@ func runR35(c *Ctx) {
 			if callee.Pkg != fn.Pkg || callee.Signature.Results().Len() == 0 {
 				return false
 			}
-			return isNamed(callee.Signature.Results().At(0).Type(), rel(sp), "Matcher")
+			if isNamed(callee.Signature.Results().At(0).Type(), rel(sp), "Matcher") {
+				return true
+			}
+			// classification helpers: booleans/integers in, one boolean/integer out (which kind of matcher)
+			basic := func(t types.Type) bool {
+				b, ok := t.Underlying().(*types.Basic)
+				return ok && b.Info()&(types.IsBoolean|types.IsInteger) != 0
+			}
+			if callee.Signature.Results().Len() != 1 || !basic(callee.Signature.Results().At(0).Type()) {
+				return false
+			}
+			for _, prm := range callee.Params {
+				if !basic(prm.Type()) {
+					return false
+				}
+			}
+			return true
 		}
+		// a constructor picked from a write-once table of constructors by the kind
+		pe.dynCallee = func(pe *pathExec, call *ssa.Call) *ssa.Function { return pe.tableCallee(p, call) }
 		end, why := pe.run()
 		ret, ok := end.(*ssa.Return)
 		if !ok {
@@ -642,11 +681,13 @@ func runR26(c *Ctx) {
 						}
 					}
 				}
-				if o := calleeObj(call); o != nil && o.Name() == "NewPointer" && len(call.Call.Args) == 3 && isConstBool(call.Call.Args[2], true) {
-					for _, g := range dominatingGuards(call.Block()) {
-						if fieldNameOfLoad(g.Cond) == "EmptyNull" && g.Val {
+				if o := calleeObj(call); o != nil && o.Name() == "NewPointer" && len(call.Call.Args) == 3 {
+					if flag := call.Call.Args[2]; isConstBool(flag, true) {
+						if p.underEmptyNull(call.Block()) {
 							emptyNull = true
 						}
+					} else if _, isConst := flag.(*ssa.Const); !isConst && p.impliesEmptyNull(flag) {
+						emptyNull = true
 					}
 				}
 			})
